@@ -45,7 +45,17 @@ def run2 (g : GOracle) (j : Json) : Json :=
     let c14 := if J.bool (J.get j "c14") then c14spec j obs else (true, "")
     let specGeneric := io != "panic" && io != "crash" && io != "timeout" && implWellTyped obs && c14.1
     if io == "notloaded" then
-      -- the model's check pass must reject it too (same traversal; any registered function is accepted)
+      -- rejected at load time: when the text parses (the tree is given), the model's check pass
+      -- (same traversal; any registered function is accepted) must reject it too
+      if J.bool (J.get j "check_rejected") then
+        match check2 l with
+        | some _ => J.obj [("id", J.get j "id"), ("agree", true), ("spec", specGeneric), ("note", "")]
+        | none =>
+          let msg := match J.get j "loaderrs" with
+            | .obj kvs => kvs.foldl (fun acc _ v => acc ++ J.str (J.get v "msg")) ""
+            | _ => ""
+          J.obj [("id", J.get j "id"), ("agree", false), ("spec", false), ("note", s!"the v2 check pass rejects a program the check model accepts: {msg}")]
+      else
       J.obj [("id", J.get j "id"), ("agree", true), ("spec", specGeneric), ("note", "")]
     else
     match check2 l with
